@@ -403,7 +403,7 @@ pub fn c17(tier: Tier) -> ! {
 
     // (c) robustness: every string up to a length over the alphabet, plus unusual characters
     let alphabet: Vec<char> = "xyz-+/*012,() ".chars().collect();
-    let maxlen = tier.pick(5usize, 7usize);
+    let maxlen = tier.pick(5usize, 8usize);
     let firsts: Vec<usize> = (0..alphabet.len()).collect();
     let rob = par_map(&firsts, |_, &f0| {
         let mut n = 0u64;
